@@ -57,6 +57,13 @@ struct OpSpec {
     int id = 0;
 };
 
+// the harness' own bookkeeping is shared between its threads without synchronisation (execution is serialised by
+// vsched): keep it out of the race detector's view
+struct Unrecorded {
+    Unrecorded() { if (rd_ignore) rd_ignore(1); }
+    ~Unrecorded() { if (rd_ignore) rd_ignore(-1); }
+};
+
 ConcurrentSubjectRouter *g_router = nullptr;
 std::map<int, std::unique_ptr<USubscription>> g_handles;
 std::map<std::string, RoutingKey> *g_keys = nullptr;   // built before vsched starts (std::regex construction)
@@ -83,21 +90,31 @@ void do_op(int t, const OpSpec &o) {
                 vs::yield("cb");
                 out().raw("\"e\":\"CbExit\",\"t\":" + std::to_string(me) + ",\"op\":\"\",\"p\":[],\"id\":" + std::to_string(id) + ",\"v\":" + std::to_string(v) + ",\"res\":0");
             });
-            g_handles[id] = std::make_unique<USubscription>(std::move(sub));
+            {
+                Unrecorded u;
+                g_handles[id] = std::make_unique<USubscription>(std::move(sub));
+            }
             ret(t, 0);
             break;
         }
         case 'U': {
             call(t, "unsubscribe", "-", o.id, 0);
-            auto it = g_handles.find(o.id);
-            if (it != g_handles.end()) {
-                (*it->second)->unsubscribe();
+            USubscription *h = nullptr;
+            {
+                Unrecorded u;
+                auto it = g_handles.find(o.id);
+                if (it != g_handles.end()) h = it->second.get();
             }
+            if (h) (*h)->unsubscribe();
             ret(t, 0);
             break;
         }
         case 'N': {
-            int v = ++g_serial;
+            int v;
+            {
+                Unrecorded u;
+                v = ++g_serial;
+            }
             call(t, "notify", o.pat, 0, v);
             size_t r = g_router->notify<int>(key_of(o.pat), int(v));
             ret(t, (long) r);
@@ -160,7 +177,10 @@ void scenario() {
             }
         });
     for (auto &t : ths) t.join();
-    g_handles.clear();
+    {
+        Unrecorded u;   // destroying the handles does not touch the router
+        g_handles.clear();
+    }
     g_router = nullptr;
 }
 
